@@ -36,6 +36,11 @@ Sub-checks (lattice sweeps, one fresh product per evaluation)
               Indicators thresholds avoid ties with V (a tie would compare exp/log roundings, not the library).
     cvroute   (adjacent to the statement) a product used as control variate gets, through ControlVariates.initialisation /
               process, the value it has when evaluated on its own.
+              Also Asian on the library's OWN averaging grids (Product.times_grid() = Asian.compute_times_grid for the four
+              Discretisation values, maturities 1 and 2 (thorough: 0.5 too); 2 .. 731 fixings; four path patterns): between
+              the path's extremes and equal to the time-weighted mean of the fixings (math.fsum, rtol 1e-11).
+              DefaultTime with a threshold EQUAL to a jump letter (-0.1, -0.4), log representation: the jumps are the float
+              increments of the log-jump path handed over, a jump equal to the threshold is not below it.
     factory   Payoff.create(OptionType, ...) (positional and keyword arguments; Forward, Vanilla call/put, Barrier of the 4
               types, 5 strikes, 2 barriers) builds the class and values the 6 one-asset paths as the constructor's object.
 Configuration menu (shared by purity, inputs, manager): every payoff class except LookBack and every public underlying
@@ -66,12 +71,41 @@ Inputs are not modified, later consumers see the same values (per configuration 
               on its own copy of the path (rtol 1e-12), the spot statistic (path_manager.spot_underlying, read after
               process as MCStatistics.add does) equals the terminal spots of the path (rtol 1e-9), the arrays handed to
               the StochasticJumpPath are bit-identical afterwards.
+Argument forms and the caller's own containers
+    terms     one array-like term per configuration (31: Vanilla strikes; Indicators thresholds; Performances /
+              MaximumOfPerformances spots; Rainbow weights; Bond / Cap / Swaption today's rates and accruals; Ratchet
+              accruals; default levels of NthDefaultTimes / DefaultTimeNthUnderlying (every index) / _DefaultTimes; with 2, 3
+              and ONE element - one asset / one name handed over as a path of shape (1, n)) x representation x form of the
+              container: list, tuple, list of numpy floats, float ndarray and, for integral values, list / tuple of ints and
+              int64 ndarray.  Per form: the constructor and the evaluations leave the caller's container bit-identical; the
+              values on the path menu of the kind equal those of the product built from a list of floats (rtol 1e-12) and the
+              plain-Python reference of the class docstrings where there is one (performance = S_T / S_0 of the
+              construction, rainbow weights from the best to the worst, indicator of all spots above their thresholds,
+              vector call / put); copy.copy, copy.deepcopy and a dill round trip are valued like the original; then the
+              caller writes OTHER values into its container in place (bump and re-use; tuples stay) and the product, its
+              deep and dill copies are valued EXACTLY as before, and after update(other representation) the product is
+              valued like a fresh product of that representation.  Failure classes: value-follows-the-callers-container
+              (equals the product built with the new values), value-mixes-the-terms-at-construction-with-the-callers-later-
+              values, representations-disagree-after-the-caller-went-on-with-its-container (one representation reads the
+              caller's container, the other a snapshot), valued-differently-from-the-list-of-floats, constructor- /
+              evaluation-modifies-the-callers-container, <copy>-valued-differently-from-the-original.
+    scalars   every scalar term (27: strikes of Forward / Vanilla / Digital / CallSpread / Butterfly / Barrier / Rainbow / Cap /
+              Swaption, the four barrier levels, coupon, notional (scalar and vector payoff), default level, Ratchet and CDS
+              terms, the indices of NthSpot / NthDefaultTimes / DefaultTimeNthUnderlying) as Python int (integral values),
+              numpy.float64, numpy.int64 / int32, 0-d array: values on the path menu equal those of the usual form (Python
+              float; int for indices).  Setter route for the terms kept under a public attribute: product built with another
+              value, valued, attribute re-assigned, update(representation) (as Engine.initialisation does), valued: equals
+              the constructed product.
+    inputs (below) also hands the times over as list / tuple / ndarray / list with Python ints at integral times (must give
+              the value obtained with the library's TimeGrid or ndarray, and stay unmodified) and the one-asset paths as
+              arrays of shape (1, n) (every one-asset configuration except Barrier, which rejects that shape).
 Explicit-state search
     purity    one Product object per configuration of the menu; events =
               evaluate path p_j through MCPath.process (the menu of the kind, e.g. one asset: inside / crossing up /
               crossing down / out of the money / crossing both / other length), evaluate an ordered pair (fine p_i, coarse
               p_j) through MLMCPath.process, update(LOG), update(IDENDITY), replace the product by copy.deepcopy of itself
-              and value p_0 / p_1 (what worker processes receive), let a SECOND object of the same configuration switched
+              and value p_0 / p_1 (what worker processes receive), by a dill round trip of itself and value p_0 (what the
+              pathos pools really send), by copy.copy of itself and value p_1, let a SECOND object of the same configuration switched
               to LOG / to identity value p_1 and then value p_0 with the product under test (leaks through class
               attributes, module-level caches, shared defaults); depth 3 (quick) / 4.  Invariant: every observed value
               equals the value of a
@@ -87,6 +121,13 @@ Explicit-state search
               pairs whose wrong result is reproduced by a fresh product: fine value depends on the coarse path / coarse
               value depends on the fine path (order of MLMCPath.process).
 
+Forms rejected by the unchanged tree's constructors (counted, never judged): today's rates of Bond / Cap as anything but an
+ndarray (they read .size); a 0-d array as Vanilla / Barrier strike (len() of it is taken); float indices; containers of shape
+(1, n) for spots / weights (Rainbow then compares an array with 0.0); empty containers (the statement promises nothing);
+numpy.float32 terms (Python-float underlying values would be rounded to single precision: outside).
+Not re-assigned in the setter route: terms with derived state that only the constructor computes (Performances.spots /
+log_spots, Indicators.thresholds / log_thresholds, Vanilla.payoff_type / _call_put, Barrier.barrier_type, deltas / _factor):
+the statement quantifies over evaluations of a constructed product, not over re-parametrised ones.
 Not covered / outside the alphabet: LookBack (its process() raises ValueError by construction: "it depends on the process
 representation"); call spread / butterfly with unordered strikes (constructor rejects them); ties between jump sizes and
 default thresholds; barrier tie rule; the digital tie rule in the LOG representation (exp(log(100.)) != 100.);
@@ -119,8 +160,10 @@ LEVEL = "model_checking"
 RULE = (
     "complete products of the 5-letter alphabets (path values, strikes, barriers, thresholds, notionals) with all paths "
     "of the stated lengths, as spot and as log paths, each evaluated on a fresh product through the real MCPath/MLMCPath; "
-    "BFS over histories of evaluations / representation switches / deep copies / a second object of the configuration on one "
-    "Product with full-snapshot canonical states; for every configuration x representation x path: bit-exact comparison "
+    "BFS over histories of evaluations / representation switches / deep, dill and shallow copies / a second object of the "
+    "configuration on one Product with full-snapshot canonical states; every array-like term in every legal container form "
+    "with the caller overwriting its container afterwards, every scalar term in every legal scalar form and through its "
+    "public attribute; for every configuration x representation x path: bit-exact comparison "
     "of all inputs before / after evaluation and every configuration of the kind as later consumer (same arrays, implied "
     "control) and as control variate in the real path managers with spot statistics; a "
     "case is non-trivial when it compared at least one identity or one history value against the fresh-product reference; "
@@ -142,6 +185,7 @@ BARRIERS = [80.0, 90.0, 100.0, 110.0, 125.0]
 NOTIONALS = [0.0, 0.5, 1.0, 2.0, -3.0]
 THRESH1 = [-0.05, -0.09, -0.2, -0.39, -0.5]
 DROPS1 = [0.0, -0.1, -0.4, 0.2]
+THRESH_TIE = [-0.1, -0.4]  # equal to a jump letter: judged in the log representation only
 THRESHM = [-0.05, -0.2, -0.5]
 DROPSM = [0.0, -0.1, -0.4]
 IND_THR = [70.0, 90.0, 102.5, 110.0, 130.0]
@@ -198,10 +242,25 @@ def cases(tier):
         for rep in REPS:
             out.append({"sub": "inputs", "config": name, "rep": rep})
             out.append({"sub": "manager", "config": name, "rep": rep})
+    # array-like terms in every legal form, the caller going on with its own container; scalar terms in every legal form
+    # and through the setter route; long averaging grids of the library's own making.  Appended AFTER the recheck marks of
+    # the cases above so that their marks do not move.
+    extra = []
+    for name in sorted(_term_configs()):
+        for rep in REPS:
+            extra.append({"sub": "terms", "config": name, "rep": rep})
+    for rep in REPS:
+        extra.append({"sub": "scalars", "rep": rep})
+    for disc in ("YEARLY", "MONTHLY", "WEEKLY", "DAILY"):
+        for maturity in ([1.0, 2.0, 0.5] if thorough else [1.0, 2.0]):
+            extra.append({"sub": "average", "kind": "asian-grid", "disc": disc, "maturity": maturity})
     for i, c in enumerate(out):
         if i % 8 == 0:
             c["recheck"] = True  # determinism self-check: executed twice on fresh objects, observations compared
-    return out
+    for i, c in enumerate(extra):
+        if i % 8 == 0:
+            c["recheck"] = True
+    return out + extra
 
 
 def check_case(sh, case):
@@ -495,6 +554,49 @@ def _sub_barrier(sh, case):
 def _sub_average(sh, case):
     PO, UN, Product = L()["PO"], L()["UN"], L()["Product"]
     nev = 0
+    if case["kind"] == "asian-grid":
+        # accumulation over many fixings: the library's own averaging grid (Product.times_grid -> Asian.compute_times_grid)
+        # for each Discretisation; reference = time-weighted mean with math.fsum (the weights are the grid's own steps)
+        disc, maturity = getattr(UN.Discretisation, case["disc"]), case["maturity"]
+        patterns = {"cycle": lambda i: V[(3 * i) % len(V)], "ramp-up": lambda i: 80.0 + 0.1 * i,
+                    "spike-last": lambda i: 100.0, "saw": lambda i: 125.0 if i % 2 else 80.0}
+        for rep in REPS:
+            for pname in sorted(patterns):
+                p = Product(payoff_underlying=UN.Asian(disc), payoff=PO.Forward(0.0), maturity=maturity)
+                made = safe(lambda: p.times_grid())
+                if made[0] == "raise":
+                    # a maturity shorter than one averaging period is rejected by the constructor of the grid
+                    sh.count("asian_grid_rejected_by_the_library")
+                    sh.outcome(("asian-grid", case["disc"], maturity, "rejected"))
+                    continue
+                times = made[1]
+                n = len(times)
+                tl = [float(times[i]) for i in range(n)]
+                path = [patterns[pname](i) for i in range(n)]
+                if pname == "spike-last":
+                    path[-1] = 125.0
+                p.update(_rep(rep))
+                a = enc(rep, path)
+                r = safe(lambda: mc_eval(p, times, a, np.zeros_like(a)))
+                nev += 1
+                comp = f"Asian:library-grid-{case['disc']}:{rep}"
+                if r[0] == "raise":
+                    sh.violation(f"C17:static:{comp}:raises:{r[1]}", f"Asian({case['disc']}) maturity {maturity}, {n} fixings, pattern {pname}: {r[2]}", None)
+                    continue
+                v = float(np.asarray(r[1], dtype=float).ravel()[0])
+                lo, hi = min(path), max(path)
+                ref = math.fsum(x * (t1 - t0) for x, t0, t1 in zip(path, [0.0] + tl[:-1], tl)) / tl[-1]
+                if not (lo * (1 - RTOL) <= v <= hi * (1 + RTOL)):
+                    sh.violation(f"C17:static:{comp}:average-not-between-path-extremes",
+                                 f"Asian({case['disc']}) maturity {maturity}, {n} fixings, pattern {pname}: {v}, path extremes [{lo}, {hi}]", None)
+                elif not core.close(v, ref, 1e-11):
+                    sh.violation(f"C17:static:{comp}:not-the-time-weighted-mean-of-the-fixings",
+                                 f"Asian({case['disc']}) maturity {maturity}, {n} fixings, pattern {pname}: {v}, time-weighted mean {ref}", None)
+                sh.cls("asian-grid-" + ("long" if n > 50 else "short"))
+                sh.outcome(("asian-grid", case["disc"], maturity, rep, pname, n, round(v, 9)))
+        sh.count("evaluations", nev)
+        sh.nontriv()
+        return
     if case["kind"] == "asian":
         n = case["L"]
         for path in paths_of(n, case["first"]):
@@ -587,6 +689,24 @@ def _sub_default(sh, case):
             for grid in grids_for(n):
                 times = times_for(n, grid)
                 tl = [float(times[i]) for i in range(n)]
+                # thresholds EQUAL to a jump letter (log representation only: the jump is the increment of the log-jump path
+                # as handed over, cum[i+1] - cum[i] in floats; "falls below" is strict; in the identity representation
+                # log(exp(.)) roundings decide a tie, not the library: counted, not judged)
+                diffs = [float(cum[i + 1]) - float(cum[i]) for i in range(steps)]
+                for a in THRESH_TIE:
+                    ref = _ref_default(tl, diffs, a)
+                    tie = any(d == a for d in diffs)
+                    r = safe(lambda: _uval("log", UN.DefaultTime(a), times, cum, cum))
+                    nev += 1
+                    sh.cls("default-threshold-" + ("tie" if tie else "letter-without-exact-tie"))
+                    sh.count("default_tie_identity_representation_not_judged")
+                    if r[0] == "raise":
+                        sh.violation(f"C17:static:DefaultTime:log:raises:{r[1]}:tie", f"jumps {incs} a={a}: {r[2]}", None)
+                    elif not core.close(r[1], ref, 1e-12):
+                        sh.violation(f"C17:static:DefaultTime:log:not-first-time-jump-below-threshold:{'tie' if tie else 'near-tie'}",
+                                     f"log-jump path {cum.tolist()} (increments {diffs}) at times {tl}, threshold {a} equal to a jump size: "
+                                     f"default time {r[1]}, expected {ref} (a jump equal to the threshold is not below it)",
+                                     {"increments": diffs, "times": tl, "a": a})
                 for a in THRESH1:
                     ref = _ref_default(tl, incs, a)
                     got = {}
@@ -832,7 +952,7 @@ def _encode(kind, rep, raw):
     """-> (times, diffusion, jumps) as the processes would produce them for this spot / rate / jump path."""
     a = np.asarray(raw, dtype=float)
     n = a.shape[-1]
-    if kind in ("jump1", "jump3"):
+    if kind.startswith("jump"):
         j = np.exp(a) if rep == "id" else a
         return times_for(n, "nonuniform" if n > 2 else "uniform"), np.zeros_like(j), j
     return times_for(n), (np.log(a) if rep == "log" else a), np.zeros_like(a)
@@ -886,6 +1006,9 @@ def _sub_purity(sh, case):
     events += [["update", "log"], ["update", "id"]]
     # the product is replaced by a deep copy of itself (what the worker processes of the engines receive), then values a path
     events += [["copy", j] for j in range(min(2, len(paths)))]
+    # ... by a dill round trip of itself (what the pool branches of the engines really send: pathos pickles with dill), by
+    # copy.copy of itself (shares payoff and underlying with the original)
+    events += [["dillcopy", 0], ["shallowcopy", min(1, len(paths) - 1)]]
     # a SECOND product object of the same configuration, switched to representation r, values path 1 in between; then the
     # product under test values path 0 (state shared through class attributes, module-level caches, default arguments)
     events += [["other", r, min(1, len(paths) - 1), 0] for r in REPS]
@@ -943,8 +1066,8 @@ def _sub_purity(sh, case):
                 prod.update(_rep(ev[1]))
                 rep = ev[1]
                 obs.append(None)
-            elif ev[0] == "copy":
-                prod = copy.deepcopy(prod)
+            elif ev[0] in ("copy", "dillcopy", "shallowcopy"):
+                prod = _COPIERS[ev[0]](prod)
                 obs.append(run_event(prod, rep, ["eval", ev[1]]))
             elif ev[0] == "other":
                 second = fresh()
@@ -978,7 +1101,7 @@ def _sub_purity(sh, case):
         got = obs[-1]
         hc = history_class(hist, rep)
         sh.cls(f"purity-history-{hc}")
-        if ev[0] in ("eval", "copy", "other"):
+        if ev[0] in ("eval", "copy", "dillcopy", "shallowcopy", "other"):
             idx = ev[3] if ev[0] == "other" else ev[1]
             ref = reference(rep, idx)
             sh.outcome((name, rep, idx, _obs_key(ref)))
@@ -993,7 +1116,8 @@ def _sub_purity(sh, case):
                 # other object is the cause
                 plain = build(hist[:-1] + [["eval", idx]])[2][-1]
                 if same_obs(plain, ref):
-                    which = "deep-copy-valued-differently" if ev[0] == "copy" else "value-depends-on-another-object-of-the-configuration"
+                    which = {"copy": "deep-copy-valued-differently", "dillcopy": "dill-round-trip-valued-differently",
+                             "shallowcopy": "shallow-copy-valued-differently"}.get(ev[0], "value-depends-on-another-object-of-the-configuration")
                     return (f"{key_payoff}:{which}", what, detail)
             if hc == "identity-after-log-update":
                 return (key_underlying, what, detail)
@@ -1029,7 +1153,17 @@ def _sub_purity(sh, case):
     sh.sample({"sub": "purity", "config": name, "states": s, "transitions": t, "max_depth": d, "menu": len(events)})
 
 
-_EVENT_WORDS = {"copy": "a deep copy of the product", "other": "the product after a second object of the configuration valued a path"}
+_EVENT_WORDS = {"copy": "a deep copy of the product", "dillcopy": "a dill round trip of the product", "shallowcopy": "copy.copy of the product",
+                "other": "the product after a second object of the configuration valued a path"}
+
+
+def _dill_round_trip(obj):
+    import dill
+
+    return dill.loads(dill.dumps(obj))
+
+
+_COPIERS = {"copy": copy.deepcopy, "dillcopy": _dill_round_trip, "shallowcopy": copy.copy}
 
 
 def _obs_key(o):
@@ -1153,6 +1287,11 @@ def _freeze(x):
         return ("obj", type(x).__name__)
 
 
+def _int_ended(tvals):
+    """the same times with the integral ones as Python ints (times = [0, 0.5, 1]: what a user types)"""
+    return [int(t) if float(t) == int(t) else t for t in tvals]
+
+
 def _changed(before, arrays):
     """names of the inputs (times, path, jump-path) that no longer have the content they had"""
     return [n for n, b, a in zip(("times", "path", "jump-path"), before, arrays) if _freeze(a) != b]
@@ -1199,7 +1338,7 @@ def _usable_as_control(main, ctrl):
 
 def _terminal_spots(kind, raw):
     a = np.asarray(raw, dtype=float)
-    return np.exp(a[..., -1]) if kind in ("jump1", "jump3") else a[..., -1]
+    return np.exp(a[..., -1]) if kind.startswith("jump") else a[..., -1]
 
 
 def _finite(o):
@@ -1259,6 +1398,29 @@ def _sub_inputs(sh, case):
             sh.violation(f"{key}:direct-evaluation-differs-from-path-manager:{rep}",
                          f"{name} rep {rep} path {raw}: underlying_value + call gives {_obs_show(rv)}, MCPath.process {_obs_show(via_manager)}", {"path": raw})
         nev += 3
+        # the same times in the other legal forms (the fixed-date simulations hand over the library's TimeGrid, the
+        # jump-time simulations an ndarray; a user of the observation point may hand over a list or a tuple)
+        tvals = [float(arrays[0][i]) for i in range(np.asarray(raw).shape[-1])]
+        for tform, tt in (("list", list(tvals)), ("tuple", tuple(tvals)), ("ndarray", np.array(tvals)), ("int-ended-list", _int_ended(tvals))):
+            t_before = _freeze(tt)
+            alt = safe(lambda: _direct(_mk(name, rep), tt, *_arrays(kind, rep, raw)[1:]))
+            nev += 1
+            if not same_obs(alt, rv):
+                sh.violation(f"{key}:times-form-valued-differently:{tform}:{rep}",
+                             f"{name} rep {rep} path {raw}: with the times {tvals} handed over as {tform} the value is {_obs_show(alt)}, "
+                             f"with {type(arrays[0]).__name__} it is {_obs_show(rv)}", {"path": raw})
+            if _freeze(tt) != t_before:
+                sh.violation(f"{key}:evaluation-modifies-its-times:{tform}:{rep}", f"{name} rep {rep} path {raw}: times handed over as {tform} were changed", {"path": raw})
+        # one asset handed over as a path of shape (1, n) (what the SDE process produces for a model of dimension 1) gives
+        # the value of the shape (n,) path.  Barrier iterates over the rows of the path and rejects it: outside.
+        if kind == "spot1" and not plabel.startswith("Barrier"):
+            row = safe(lambda: _direct(_mk(name, rep), *_arrays(kind, rep, [raw])))
+            nev += 1
+            if row[0] == "raise" or np.size(row[1]) != np.size(rv[1]) or not same_obs(("ok", np.ravel(row[1])), ("ok", np.ravel(rv[1]))):
+                sh.violation(f"{key}:path-of-shape-(1,n)-valued-differently-from-shape-(n,):{rep}",
+                             f"{name} rep {rep} path {raw}: as an array of shape (1, n) {_obs_show(row)}, of shape (n,) {_obs_show(rv)}", {"path": raw})
+        elif kind == "spot1":
+            sh.count("row_shaped_path_rejected_by_barrier_not_judged")
         # notional scales linearly, for every payoff / underlying of the menu
         unit = ref(name, idx, 1.0)
         if _finite(unit):
@@ -1469,4 +1631,395 @@ def _sub_manager(sh, case):
                 sweep("MLMCPath.process", [i, k], [groups[g] for g in sorted(groups)])
     sh.count("evaluations", nev)
     sh.cls(f"manager-{kind}-controls-{'some' if controls else 'none'}")
+    sh.nontriv()
+
+
+# ----------------------------------------------------------------------------------------------------------------------
+# array-like terms: every legal form, and the caller going on with its own container
+# ----------------------------------------------------------------------------------------------------------------------
+
+PATH_MENUS["spot1row"] = [[p] for p in P1D]  # one asset as a model of dimension 1 hands it over to a multi-asset underlying
+PATH_MENUS["jump1row"] = [[j] for j in J1]
+
+
+def _term_configs():
+    """name -> (kind, values, other values, build(PO, UN, container) -> (underlying, payoff), plain reference or None).
+
+    One array-like term per configuration is handed over in the form under test; `other values` are what the caller
+    writes into its container afterwards (bump and re-use); integral values also go through the integer forms.
+    plain(raw path) -> value for notional 1 in plain Python (class docstrings: performance = S_T / S_0, rainbow = weights
+    from the best to the worst performance, indicator = 1 if every spot is above its threshold)."""
+    cfg = {}
+    r0, dl = [0.02, 0.025, 0.03], [0.5, 0.5, 0.5]
+    s3 = [100.0, 80.0, 125.0]
+
+    def last(raw):
+        return [float(row[-1]) for row in np.atleast_2d(np.asarray(raw, dtype=float))]
+
+    def rainbow(weights, strike, eps, spots):
+        def plain(raw, c):
+            perf = sorted((x / s0 for x, s0 in zip(last(raw), spots(c))), reverse=True)
+            return max(0.0, eps * (sum(w * x for w, x in zip(weights(c), perf)) - strike))
+        return plain
+
+    ones = lambda c: [1.0] * len(c)  # noqa: E731
+    cfg["Vanilla.strike:Spot"] = ("spot1", [90.0, 100.0, 110.0], [80.0, 105.0, 120.0],
+                                  lambda PO, UN, c: (UN.Spot(), PO.Vanilla(c, PO.PayoffType.CALL)),
+                                  lambda raw, c: [max(0.0, last(raw)[0] - k) for k in c])
+    cfg["Vanilla.strike[one]:Spot"] = ("spot1", [100.0], [90.0], lambda PO, UN, c: (UN.Spot(), PO.Vanilla(c, PO.PayoffType.PUT)),
+                                       lambda raw, c: [max(0.0, k - last(raw)[0]) for k in c])
+    cfg["Indicators.thresholds"] = ("spot2", [95.0, 85.0], [60.0, 40.0], lambda PO, UN, c: (UN.Indicators(c), PO.PayoffOnTheFly(_total)),
+                                    lambda raw, c: 1.0 if all(x > k for x, k in zip(last(raw), c)) else 0.0)
+    cfg["Indicators.thresholds[3d]"] = ("spot3", [94.0, 79.0, 90.0], [60.0, 40.0, 50.0], lambda PO, UN, c: (UN.Indicators(c), PO.PayoffOnTheFly(_total)),
+                                        lambda raw, c: 1.0 if all(x > k for x, k in zip(last(raw), c)) else 0.0)
+    cfg["Indicators.thresholds[one]"] = ("spot1row", [102.0], [110.0], lambda PO, UN, c: (UN.Indicators(c), PO.PayoffOnTheFly(_total)),
+                                         lambda raw, c: 1.0 if all(x > k for x, k in zip(last(raw), c)) else 0.0)
+    cfg["Performances.spots"] = ("spot2", [100.0, 80.0], [90.0, 100.0],
+                                 lambda PO, UN, c: (UN.Performances(c), PO.Rainbow([0.7, 0.3], 1.0, PO.PayoffType.CALL)),
+                                 rainbow(lambda c: [0.7, 0.3], 1.0, +1, lambda c: c))
+    cfg["Performances.spots[3d]"] = ("spot3", s3, [125.0, 100.0, 80.0],
+                                     lambda PO, UN, c: (UN.Performances(c), PO.Rainbow([0.5, 0.3, 0.2], 1.3, PO.PayoffType.PUT)),
+                                     rainbow(lambda c: [0.5, 0.3, 0.2], 1.3, -1, lambda c: c))
+    cfg["Performances.spots[one]"] = ("spot1row", [100.0], [80.0],
+                                      lambda PO, UN, c: (UN.Performances(c), PO.Rainbow([1.0], 1.0, PO.PayoffType.CALL)),
+                                      rainbow(lambda c: [1.0], 1.0, +1, lambda c: c))
+    cfg["MaximumOfPerformances.spots"] = ("spot2", [100.0, 80.0], [90.0, 100.0],
+                                          lambda PO, UN, c: (UN.MaximumOfPerformances(c), PO.Vanilla(1.0, PO.PayoffType.CALL)),
+                                          rainbow(lambda c: [1.0] + [0.0] * (len(c) - 1), 1.0, +1, lambda c: c))
+    cfg["MaximumOfPerformances.spots[3d]"] = ("spot3", s3, [125.0, 100.0, 80.0],
+                                              lambda PO, UN, c: (UN.MaximumOfPerformances(c), PO.Vanilla(1.0, PO.PayoffType.CALL)),
+                                              rainbow(lambda c: [1.0] + [0.0] * (len(c) - 1), 1.0, +1, lambda c: c))
+    cfg["MaximumOfPerformances.spots[one]"] = ("spot1row", [100.0], [80.0],
+                                               lambda PO, UN, c: (UN.MaximumOfPerformances(c), PO.Vanilla(1.0, PO.PayoffType.PUT)),
+                                               rainbow(lambda c: [1.0], 1.0, -1, lambda c: c))
+    cfg["Rainbow.weights:Spot[2d]"] = ("spot2", [0.6, 0.4], [0.1, 0.9], lambda PO, UN, c: (UN.Spot(), PO.Rainbow(c, 101.0, PO.PayoffType.PUT)),
+                                       rainbow(lambda c: c, 101.0, -1, ones))
+    cfg["Rainbow.weights[best-of]:Performances[3d]"] = ("spot3", [1.0, 0.0, 0.0], [0.0, 0.0, 1.0],
+                                                        lambda PO, UN, c: (UN.Performances(list(s3)), PO.Rainbow(c, 1.0, PO.PayoffType.CALL)),
+                                                        rainbow(lambda c: c, 1.0, +1, lambda c: s3))
+    cfg["Rainbow.weights[one]:Spot[1 asset]"] = ("spot1row", [1.0], [2.0], lambda PO, UN, c: (UN.Spot(), PO.Rainbow(c, 100.0, PO.PayoffType.CALL)),
+                                                 rainbow(lambda c: c, 100.0, +1, ones))
+    # interest-rate payoffs: today's rates and the accruals (the library's scripts hand over ndarrays; sequences where the
+    # constructor accepts them)
+    cfg["Bond.underlying_rates"] = ("rates", r0, [0.03, 0.01, 0.02], lambda PO, UN, c: (UN.Libors(), PO.Bond(c, np.array(dl))), None)
+    cfg["Bond.deltas"] = ("rates", dl, [0.25, 1.0, 0.5], lambda PO, UN, c: (UN.Libors(), PO.Bond(np.array(r0), c)), None)
+    cfg["Bond.deltas[annual]"] = ("rates", [1.0, 1.0, 1.0], [2.0, 1.0, 3.0], lambda PO, UN, c: (UN.Libors(), PO.Bond(np.array(r0), c)), None)
+    cfg["Cap.underlying_rates"] = ("rates", r0, [0.03, 0.01, 0.02], lambda PO, UN, c: (UN.Libors(), PO.Cap(c, np.array(dl), 0.02)), None)
+    cfg["Cap.deltas"] = ("rates", dl, [0.25, 1.0, 0.5], lambda PO, UN, c: (UN.Libors(), PO.Cap(np.array(r0), c, 0.02)), None)
+    cfg["Swaption.underlying_rates"] = ("rates", r0, [0.03, 0.01, 0.02],
+                                        lambda PO, UN, c: (UN.Libors(), PO.Swaption(c, np.array(dl), 0.02, PO.SwaptionType.PAYER)), None)
+    cfg["Swaption.deltas"] = ("rates", dl, [0.25, 1.0, 0.5],
+                              lambda PO, UN, c: (UN.Libors(), PO.Swaption(np.array(r0), c, 0.02, PO.SwaptionType.PAYER)), None)
+    cfg["Ratchet.deltas"] = ("rates", dl, [0.25, 1.0, 0.5], lambda PO, UN, c: (UN.Libors(), PO.Ratchet(c, 1.0, 0.001, 0.002, 0.001, 0.01)), None)
+    cfg["Ratchet.deltas[annual]"] = ("rates", [1.0, 1.0, 1.0], [2.0, 1.0, 3.0],
+                                     lambda PO, UN, c: (UN.Libors(), PO.Ratchet(c, 1.0, 0.001, 0.002, 0.001, 0.01)), None)
+    # default levels
+    lv = [-0.35, -0.35, -0.05]
+    for k in (1, 2, 3):
+        cfg[f"NthDefaultTimes.default_levels[{k}]"] = ("jump3", lv, [-0.05, -0.5, -0.35],
+                                                       lambda PO, UN, c, k=k: (UN.NthDefaultTimes(c, k), PO.Forward(0.0)), None)
+        cfg[f"DefaultTimeNthUnderlying.default_levels[{k}]"] = ("jump3", [-0.05, -0.05, -0.35], [-0.5, -0.5, -0.05],
+                                                                lambda PO, UN, c, k=k: (UN.DefaultTimeNthUnderlying(c, k), PO.Forward(0.0)), None)
+    cfg["NthDefaultTimes.default_levels[one]"] = ("jump1row", [-0.35], [-0.05], lambda PO, UN, c: (UN.NthDefaultTimes(c, 1), PO.Forward(0.0)), None)
+    cfg["_DefaultTimes.default_levels"] = ("jump3", lv, [-0.05, -0.5, -0.35],
+                                           lambda PO, UN, c: (getattr(UN, "_DefaultTimes")(c), PO.Forward(0.0)), None)
+    return cfg
+
+
+def _term_forms(values):
+    """label -> maker of the caller's container.  Integer forms exist for integral values only."""
+    forms = {
+        "list": lambda: [float(v) for v in values],
+        "tuple": lambda: tuple(float(v) for v in values),
+        "list-of-numpy-floats": lambda: [np.float64(v) for v in values],
+        "float-array": lambda: np.array(values, dtype=float),
+    }
+    if all(float(v) == int(v) for v in values):
+        forms["list-of-ints"] = lambda: [int(v) for v in values]
+        forms["tuple-of-ints"] = lambda: tuple(int(v) for v in values)
+        forms["int-array"] = lambda: np.array([int(v) for v in values], dtype=np.int64)
+    return forms
+
+
+# forms the constructors of the unchanged tree do not accept (outside the alphabet: counted, never judged)
+#   Bond / Cap read underlying_rates.size: an ndarray is required there
+TERM_FORMS_REJECTED = {
+    (c, f) for c in ("Bond.underlying_rates", "Cap.underlying_rates") for f in ("list", "tuple", "list-of-numpy-floats", "list-of-ints", "tuple-of-ints")
+}
+
+
+def _overwrite(container, other):
+    """the caller re-uses its container for the next product: new values written IN PLACE.  -> False when the container is
+    immutable (nothing the caller could do to it)."""
+    if isinstance(container, np.ndarray):
+        container[...] = np.asarray(other).astype(container.dtype)
+        return True
+    if isinstance(container, list):
+        kind = type(container[0])
+        for i, v in enumerate(other):
+            container[i] = kind(v)
+        return True
+    return False
+
+
+def _sub_terms(sh, case):
+    """For one array-like term x representation x form of the container: (1) the constructor and the evaluations leave the
+    caller's container alone; (2) the product is valued like the product built from a list of floats (and like the plain
+    reference where there is one); (3) shallow / deep / dill copies are valued like it; (4) the caller overwrites its
+    container in place: the product and its copies are valued as before, in the representation in use and after a switch
+    to the other one."""
+    lib = L()
+    PO, UN, Product = lib["PO"], lib["UN"], lib["Product"]
+    name, rep = case["config"], case["rep"]
+    other_rep = "log" if rep == "id" else "id"
+    kind, values, other, build, plain = _term_configs()[name]
+    if name.startswith("_") and getattr(UN, name.split(".")[0], None) is None:
+        sh.count("private_base_class_absent_not_checked")
+        sh.nontriv()
+        return
+    paths = PATH_MENUS[kind]
+    key = f"C17:terms:{name}"
+    nev = 0
+
+    def make(container, r):
+        u, p = build(PO, UN, container)
+        pr = Product(payoff_underlying=u, payoff=p, maturity=1.0, notional=2.0)
+        pr.update(_rep(r))
+        return pr
+
+    def value(pr, r, idx):
+        return safe(lambda: _direct(pr, *_arrays(kind, r, paths[idx])))
+
+    base = name.split("[")[0].split(":")[0]
+    # the usual form: a list of floats (an ndarray where the constructor takes nothing else), never touched afterwards
+    usual_form = (lambda vs: np.array(vs, dtype=float)) if (base, "list") in TERM_FORMS_REJECTED else (lambda vs: [float(v) for v in vs])
+    usual = {r: [value(make(usual_form(values), r), r, i) for i in range(len(paths))] for r in REPS}
+    moved = {r: [value(make(usual_form(other), r), r, i) for i in range(len(paths))] for r in REPS}
+    nev += 4 * len(paths)
+    if all(same_obs(a, b, 0.0) for a, b in zip(usual[rep], moved[rep])):
+        sh.count("terms_other_values_invisible_on_the_path_menu")
+    else:
+        sh.cls("terms-other-values-visible")
+    for idx, raw in enumerate(paths):
+        if usual["id"][idx][0] == "raise" or usual["log"][idx][0] == "raise":
+            which = usual["id"][idx] if usual["id"][idx][0] == "raise" else usual["log"][idx]
+            sh.violation(f"{key}:raises:{which[1]}:list", f"{name} built from a list of floats raises on path {raw}: {which[2]}", {"path": raw})
+        elif plain is not None:
+            want = 2.0 * np.asarray(plain(raw, [float(v) for v in values]), dtype=float)
+            for r in REPS:
+                nev += 1
+                if not arr_close(usual[r][idx][1], want, RTOL, None) or np.shape(usual[r][idx][1]) != np.shape(want):
+                    sh.violation(f"{key}:differs-from-plain-reference:{r}",
+                                 f"{name} (terms {values}, notional 2, rep {r}) on path {raw}: {_obs_show(usual[r][idx])}, plain reference {want.tolist()}", {"path": raw})
+    if any(o[0] == "raise" for r in REPS for o in usual[r]):
+        sh.nontriv()
+        return
+
+    for form, maker in _term_forms(values).items():
+        if (base, form) in TERM_FORMS_REJECTED:
+            sh.count("term_forms_rejected_by_the_constructor_not_judged")
+            continue
+        container = maker()
+        before = _freeze(container)
+        built = safe(lambda: make(container, rep))
+        if built[0] == "raise":
+            sh.violation(f"{key}:raises:{built[1]}:{form}", f"{name}: the constructor / update({rep}) raises {built[1]} for the terms handed over as {form}: {built[2]}", None)
+            continue
+        prod = built[1]
+        if _freeze(container) != before:
+            sh.violation(f"{key}:constructor-modifies-the-callers-container:{form}",
+                         f"{name}: the caller's {form} {before[1:] if before[0] != 'nd' else values} is {container!r} after the construction", None)
+        first = [value(prod, rep, i) for i in range(len(paths))]
+        nev += len(paths)
+        bad_form = [i for i in range(len(paths)) if not same_obs(first[i], usual[rep][i])]
+        if bad_form:
+            i = bad_form[0]
+            sh.violation(f"{key}:valued-differently-from-the-list-of-floats:{form}:{rep}",
+                         f"{name} with terms {values} handed over as {form} (rep {rep}) on path {paths[i]}: {_obs_show(first[i])}; "
+                         f"handed over as a list of floats: {_obs_show(usual[rep][i])}", {"path": paths[i]})
+        if _freeze(container) != before:
+            sh.violation(f"{key}:evaluation-modifies-the-callers-container:{form}:{rep}",
+                         f"{name}: the caller's {form} is {container!r} after {len(paths)} evaluations", None)
+            container = maker()
+            prod = make(container, rep)
+        copies = {}
+        for how in ("shallowcopy", "copy", "dillcopy"):
+            c = safe(lambda: _COPIERS[how](prod))
+            if c[0] == "raise":
+                sh.violation(f"{key}:{how}-raises:{c[1]}:{form}", f"{name} ({form}): {_EVENT_WORDS[how]} raises {c[1]}: {c[2]}", None)
+            else:
+                copies[how] = c[1]
+        wrote = _overwrite(container, other)
+        sh.cls("terms-container-" + ("overwritten-in-place" if wrote else "immutable"))
+        if not wrote:
+            sh.count("immutable_containers_not_overwritten")
+        after = [value(prod, rep, i) for i in range(len(paths))]
+        nev += len(paths)
+        bad = [i for i in range(len(paths)) if not same_obs(after[i], first[i], 0.0)]
+        words = f"the caller wrote {other} into its {form}" if wrote else f"the caller kept its {form}"
+        if bad:
+            i = bad[0]
+            follows = all(same_obs(after[j], moved[rep][j]) for j in range(len(paths)))
+            cls_ = ("value-follows-the-callers-container-after-construction" if wrote and follows else
+                    "value-mixes-the-terms-at-construction-with-the-callers-later-values" if wrote else "second-evaluation-differs")
+            sh.violation(f"{key}:{cls_}:{form}:{rep}",
+                         f"{name} built with terms {values} ({form}, rep {rep}); then {words}; path {paths[i]} is now valued {_obs_show(after[i])}, "
+                         f"before {_obs_show(first[i])} (a product built with {other}: {_obs_show(moved[rep][i])})",
+                         {"path": paths[i], "terms": values, "written": other})
+        for how, c in copies.items():
+            got = [value(c, rep, i) for i in range(len(paths))]
+            nev += len(paths)
+            want = after if how == "shallowcopy" else first  # copy.copy shares the term arrays with the original
+            badc = [i for i in range(len(paths)) if not same_obs(got[i], want[i], 0.0)]
+            if badc and not (how == "shallowcopy" and bad):
+                i = badc[0]
+                sh.violation(f"{key}:{how}-valued-differently-from-the-original:{form}:{rep}",
+                             f"{name} ({form}, rep {rep}): {_EVENT_WORDS[how]} taken before {words} values path {paths[i]} {_obs_show(got[i])}; "
+                             f"the original gave {_obs_show(want[i])}", {"path": paths[i]})
+        # the same object switched to the other representation (sticky-switch histories are the purity search's business;
+        # here: both representations use the terms of the construction)
+        sw = safe(lambda: prod.update(_rep(other_rep)))
+        switched = [value(prod, other_rep, i) for i in range(len(paths))]
+        nev += len(paths)
+        bads = [i for i in range(len(paths)) if not same_obs(switched[i], usual[other_rep][i])]
+        if sw[0] == "raise":
+            sh.violation(f"{key}:update-raises:{sw[1]}:{form}", f"{name} ({form}): update({other_rep}) raises: {sw[2]}", None)
+        elif bads and not bad and not bad_form:  # otherwise already reported above for this form
+            i = bads[0]
+            sh.violation(f"{key}:representations-disagree-after-the-caller-went-on-with-its-container:{form}:{rep}-then-{other_rep}",
+                         f"{name} built with terms {values} ({form}) in rep {rep}; {words}; after update({other_rep}) the spot path {paths[i]} "
+                         f"is valued {_obs_show(switched[i])}; rep {rep} gave {_obs_show(after[i])}, a fresh product in rep {other_rep} "
+                         f"{_obs_show(usual[other_rep][i])}", {"path": paths[i], "terms": values, "written": other})
+        sh.outcome((name, rep, form, tuple(_obs_key(o)[0] for o in first), _obs_key(first[0])))
+    sh.count("evaluations", nev)
+    sh.nontriv()
+
+
+# ----------------------------------------------------------------------------------------------------------------------
+# scalar terms: every legal form, and the setter route
+# ----------------------------------------------------------------------------------------------------------------------
+
+def _scalar_table():
+    """label -> (kind, usual value, build(PO, UN, x) -> (underlying, payoff, notional), public attribute holding the term
+    (("payoff" | "product", name)) or None).  The usual form is a Python float (a Python int for indices)."""
+    r0, dl = np.array([0.02, 0.025, 0.03]), np.array([0.5, 0.5, 0.5])
+    C, P = "CALL", "PUT"
+    t = {}
+
+    def pt(PO, n):
+        return getattr(PO.PayoffType, n)
+
+    t["Forward.strike"] = ("spot1", 100.0, lambda PO, UN, x: (UN.Spot(), PO.Forward(x), 1.0), ("payoff", "strike"))
+    t["Vanilla.strike"] = ("spot1", 100.0, lambda PO, UN, x: (UN.Spot(), PO.Vanilla(x, pt(PO, C)), 1.0), ("payoff", "strike"))
+    t["Digital.strike"] = ("spot1", 104.0, lambda PO, UN, x: (UN.Spot(), PO.Digital(x, pt(PO, P)), 1.0), ("payoff", "strike"))
+    t["CallSpread.strike1"] = ("spot1", 90.0, lambda PO, UN, x: (UN.Spot(), PO.CallSpread(x, 106.0), 1.0), ("payoff", "strike1"))
+    t["CallSpread.strike2"] = ("spot1", 106.0, lambda PO, UN, x: (UN.Spot(), PO.CallSpread(90.0, x), 1.0), ("payoff", "strike2"))
+    t["Butterfly.strike2"] = ("spot1", 100.0, lambda PO, UN, x: (UN.Spot(), PO.Butterfly(90.0, x, 110.0), 1.0), None)
+    for bt, level in (("UP_AND_IN", 110.0), ("UP_AND_OUT", 108.0), ("DOWN_AND_IN", 90.0), ("DOWN_AND_OUT", 95.0)):
+        t[f"Barrier[{bt}].barrier"] = ("spot1", level, lambda PO, UN, x, bt=bt: (UN.Spot(), PO.Barrier(100.0, pt(PO, C), getattr(PO.BarrierType, bt), x), 1.0),
+                                       ("payoff", "barrier"))
+    t["Barrier.strike"] = ("spot1", 100.0, lambda PO, UN, x: (UN.Spot(), PO.Barrier(x, pt(PO, P), PO.BarrierType.DOWN_AND_IN, 90.0), 1.0), None)
+    t["FixedCoupon.coupon"] = ("spot1", 3.0, lambda PO, UN, x: (UN.Spot(), PO.FixedCoupon(x), 1.0), ("payoff", "coupon"))
+    t["Product.notional"] = ("spot1", 2.0, lambda PO, UN, x: (UN.Spot(), PO.Vanilla(100.0, pt(PO, C)), x), ("product", "notional"))
+    t["Product.notional[vector payoff]"] = ("spot1", -3.0, lambda PO, UN, x: (UN.Spot(), PO.Vanilla([90.0, 100.0, 110.0], pt(PO, P)), x), ("product", "notional"))
+    t["Rainbow.strike"] = ("spot2", 101.0, lambda PO, UN, x: (UN.Spot(), PO.Rainbow([0.6, 0.4], x, pt(PO, P)), 1.0), ("payoff", "strike"))
+    t["DefaultTime.default_level"] = ("jump1", -0.35, lambda PO, UN, x: (UN.DefaultTime(x), PO.Forward(0.0), 1.0), None)
+    t["DefaultTime.default_level[integral]"] = ("jump1big", -1.0, lambda PO, UN, x: (UN.DefaultTime(x), PO.Forward(0.0), 1.0), None)
+    t["NthSpot.index"] = ("spot3", 2, lambda PO, UN, x: (UN.NthSpot(x), PO.Forward(80.0), 1.0), None)
+    t["NthDefaultTimes.index"] = ("jump3", 2, lambda PO, UN, x: (UN.NthDefaultTimes([-0.35, -0.35, -0.05], x), PO.Forward(0.0), 1.0), None)
+    t["DefaultTimeNthUnderlying.underlying_index"] = ("jump3", 3, lambda PO, UN, x: (UN.DefaultTimeNthUnderlying([-0.05, -0.05, -0.35], x), PO.Forward(0.0), 1.0), None)
+    t["Cap.strike"] = ("rates", 0.02, lambda PO, UN, x: (UN.Libors(), PO.Cap(r0, dl, x), 1.0), ("payoff", "strike"))
+    t["Swaption.strike"] = ("rates", 0.02, lambda PO, UN, x: (UN.Libors(), PO.Swaption(r0, dl, x, PO.SwaptionType.PAYER), 1.0), ("payoff", "strike"))
+    t["Ratchet.funding_gearing"] = ("rates", 1.0, lambda PO, UN, x: (UN.Libors(), PO.Ratchet(dl, x, 0.001, 0.002, 0.001, 0.01), 1.0), ("payoff", "gearing"))
+    t["Ratchet.first_rate"] = ("rates", 0.01, lambda PO, UN, x: (UN.Libors(), PO.Ratchet(dl, 1.0, 0.001, 0.002, 0.001, x), 1.0), ("payoff", "first_rate"))
+    t["CDS.spread"] = ("jump1", 0.01, lambda PO, UN, x: (UN.DefaultTime(-0.35), PO.CDS(0.4, x, 1.0, _df), 1.0), ("payoff", "spread"))
+    t["CDS.recovery_rate"] = ("jump1", 0.4, lambda PO, UN, x: (UN.DefaultTime(-0.35), PO.CDS(x, 0.01, 1.0, _df), 1.0), ("payoff", "recovery_rate"))
+    t["CDS.maturity"] = ("jump1", 1.0, lambda PO, UN, x: (UN.DefaultTime(-0.35), PO.CDS(0.4, 0.01, x, _df), 1.0), None)
+    return t
+
+
+PATH_MENUS["jump1big"] = [_cum(i) for i in ([0.0, 0.0], [-1.6, 0.0], [-0.4, -1.6], [0.2, -0.4, -2.0])]
+
+
+def _scalar_forms(x):
+    if isinstance(x, int):
+        return {"numpy-int64": np.int64(x), "numpy-int32": np.int32(x), "0-d-int-array": np.array(x)}
+    forms = {"numpy-float64": np.float64(x), "0-d-array": np.array(x)}
+    if float(x) == int(x):
+        forms.update({"int": int(x), "numpy-int64": np.int64(int(x)), "0-d-int-array": np.array(int(x))})
+    return forms
+
+
+# rejected by the unchanged tree's constructors (Vanilla takes len() of any strike that is not a numbers.Real): outside
+SCALAR_FORMS_REJECTED = {(c, f) for c in ("Vanilla.strike", "Barrier.strike") for f in ("0-d-array", "0-d-int-array")}
+
+
+def _sub_scalars(sh, case):
+    """Every scalar term of the payoff / underlying / product constructors in each legal form (Python int where a float is
+    usual, numpy scalars, 0-d arrays) and assigned to its public attribute after construction with another value (followed by
+    update(representation), as Engine.initialisation does before pricing): the values on the path menu of the kind equal
+    those of the usual form."""
+    lib = L()
+    PO, UN, Product = lib["PO"], lib["UN"], lib["Product"]
+    rep = case["rep"]
+    nev = 0
+    for label, (kind, x, build, attr) in sorted(_scalar_table().items()):
+        paths = PATH_MENUS[kind]
+
+        def make(v):
+            u, p, n = build(PO, UN, v)
+            pr = Product(payoff_underlying=u, payoff=p, maturity=1.0, notional=n)
+            pr.update(_rep(rep))
+            return pr
+
+        def values(pr):
+            return [safe(lambda i=i: _direct(pr, *_arrays(kind, rep, paths[i]))) for i in range(len(paths))]
+
+        usual = values(make(x))
+        nev += len(paths)
+        sh.outcome((label, rep, tuple(map(_obs_key, usual)).__repr__()))
+        if any(o[0] == "raise" for o in usual):
+            o = [o for o in usual if o[0] == "raise"][0]
+            sh.violation(f"C17:scalars:{label}:raises:{o[1]}:usual-form:{rep}", f"{label} = {x!r} (rep {rep}): {o[2]}", None)
+            continue
+        for form, v in _scalar_forms(x).items():
+            if (label.split("[")[0], form) in SCALAR_FORMS_REJECTED:
+                sh.count("scalar_forms_rejected_by_the_constructor_not_judged")
+                continue
+            got = safe(lambda: values(make(v)))
+            nev += len(paths)
+            got = got[1] if got[0] == "ok" else [got] * len(paths)
+            bad = [i for i in range(len(paths)) if not same_obs(got[i], usual[i])]
+            if bad:
+                i = bad[0]
+                cls_ = f"raises:{got[i][1]}" if got[i][0] == "raise" else "valued-differently-from-the-usual-form"
+                sh.violation(f"C17:scalars:{label}:{cls_}:{form}:{rep}",
+                             f"{label} = {x!r} handed over as {form} (rep {rep}) on path {paths[i]}: {_obs_show(got[i])}; as {type(x).__name__}: {_obs_show(usual[i])}",
+                             {"path": paths[i]})
+            sh.cls(f"scalar-form-{form}")
+        if attr is not None:
+            # setter route: built with another value, valued once, the public attribute re-assigned, update(rep), valued
+            elsewhere = (0.5 * x + 0.25 * abs(x) + 0.001) if label != "CallSpread.strike2" else 2.0 * x
+            pr = safe(lambda: make(elsewhere))
+            if pr[0] == "raise":
+                sh.count("setter_route_other_value_rejected")
+                continue
+            pr = pr[1]
+            values(pr)
+            holder = pr if attr[0] == "product" else pr.payoff
+            if not hasattr(holder, attr[1]):
+                sh.count("setter_route_public_attribute_absent_not_judged")  # a renamed attribute is not the property's business
+                continue
+            setattr(holder, attr[1], x)
+            pr.update(_rep(rep))
+            got = values(pr)
+            nev += 2 * len(paths)
+            bad = [i for i in range(len(paths)) if not same_obs(got[i], usual[i])]
+            if bad:
+                i = bad[0]
+                sh.violation(f"C17:scalars:{label}:re-assigned-attribute-valued-differently-from-constructed:{rep}",
+                             f"{label}: product built with {elsewhere!r}, valued, then {attr[0]}.{attr[1]} = {x!r} and update({rep}); path {paths[i]} is valued "
+                             f"{_obs_show(got[i])}; built with {x!r}: {_obs_show(usual[i])}", {"path": paths[i]})
+            sh.cls("scalar-setter-route")
+    sh.count("evaluations", nev)
     sh.nontriv()
